@@ -43,7 +43,10 @@ SIGN_NAMES = ['a', 'b', 'aa', '(a)', '(a|b)', '(a', 'a)', '(', '!a', '-a', '!(a)
 BAR_BRACKETS = ['[[:alpha:]|]', '[]|]', '[^]|]', '[!]|]', '[^|]', '[[:digit:]|x]', '[x[:digit:]|]', '[[|]', '[-|]', '[]-|]', '[\\]|]',
                 '[a[:alpha:]]|]', '[[:alpha:]', '[[:alpha:]|', '[[:alpha|]', '[[:bogus:]|]', '[![:alpha:]|]', '[^[:alpha:]|]']
 BAR_TAILS = ['', 'x', '|c', 'x|c', '|[]|]']
-BAR_NAMES = ['a', 'b', 'c', '|', ']', 'x', '1', '|x', ']x', 'ax', '1x', '[', '-', '\\', ':', '|]', 'a]', '[:alpha:]|]', '[[:alpha:]', '[[:alpha:]|',
+# ... and the same brackets inside a group that is never closed (added with the D35 repair: `WcSplit.parse_extend` overwrote its rewind
+# mark at every `[`, so after the failed group `@(a[|]b` the scan resumed after the `[` and split at the bracket's `|`)
+BAR_HEADS = ['', '@(a', '*(', '!(x', '+(a|b', '@(a@(b']
+BAR_NAMES = ['@(a|b', '@(a|', '*(|', '!(x|', '+(a|b|', 'a', 'b', 'c', '|', ']', 'x', '1', '|x', ']x', 'ax', '1x', '[', '-', '\\', ':', '|]', 'a]', '[:alpha:]|]', '[[:alpha:]', '[[:alpha:]|',
              '[]', '^', '!', '[[:alpha', '[[:bogus:]', ':]', 'a|]', 'c]', '[a', ']|]']
 
 
@@ -55,6 +58,11 @@ def bar_grid(F, G):
             for b in BAR_BRACKETS:
                 for t in BAR_TAILS:
                     yield apiname, [b + t], flags
+            if sub & 1:
+                for h in BAR_HEADS[1:]:
+                    for b in BAR_BRACKETS[:8] + ['[|]', '[a|b]']:
+                        for t in ('', 'b', '|c'):
+                            yield apiname, [h + b + t], flags
 
 
 def sign_grid(F, G):
